@@ -167,8 +167,23 @@ def run(repo, rep, tier):
     # policy warnings go to stderr in JSON mode
     pi = repo.func('policy', 'Policy.__init__')
     wt = [n for n in walk_no_nested(pi) if isinstance(n, ast.Assign) and unparse(n.targets[0]) == 'self._warning_target']
-    ok = sorted((unparse(n.value), tuple((unparse(t), p) for t, p, k in path_condition(n))) for n in wt) == [('sys.stderr', (('json_output', True),)), ('sys.stdout', (('json_output', False),))]
-    rep.check('json', 'policy warnings go to stderr when JSON output is expected', ok, wt[0] if wt else pi, 'policy warning target selection changed')
+    # decided by evaluating the stores for both values of json_output (if/else, conditional expression, table lookup alike)
+    from sa.abseval import ev as _ev_wt, Unknown as _Unk_wt
+    got_wt = {}
+    for jo in (True, False):
+        vals = set()
+        for n in wt:
+            conds = [(t, p) for t, p, k in path_condition(n) if k in ('if', 'guard', 'ifexp')]
+            try:
+                live = all(bool(_ev_wt(t, {'json_output': jo})) == p for t, p in conds)
+                if live:
+                    v = _ev_wt(n.value, {'json_output': jo, 'sys.stderr': '<stderr>', 'sys.stdout': '<stdout>'})
+                    vals.add(v)
+            except _Unk_wt as ex:
+                raise AnalysisError('policy warning target: %s' % ex)
+        got_wt[jo] = vals
+    ok = got_wt == {True: {'<stderr>'}, False: {'<stdout>'}}
+    rep.check('json', 'policy warnings go to stderr when JSON output is expected', ok, wt[0] if wt else pi, 'policy warnings are written to %s when JSON output is expected and to %s otherwise' % (sorted(got_wt[True]), sorted(got_wt[False])))
     for n in walk_no_nested(pi):
         if isinstance(n, ast.Call) and isinstance(n.func, ast.Name) and n.func.id == 'print' and 'WARNING_DEPRECATED' in unparse(n):
             fk = get_kw(n, 'file')
